@@ -358,6 +358,18 @@ func ruleESCSET1(c *Ctx) {
 		if len(body) != 1 {
 			return false
 		}
+		// in a boolean predicate split off the scanner (`isCanonical…`), `return false` is the same verdict
+		if g != dec && g.Obj != nil {
+			if sig, ok := g.Obj.Type().(*types.Signature); ok && sig.Results().Len() == 1 {
+				if bt, ok := sig.Results().At(0).Type().(*types.Basic); ok && bt.Kind() == types.Bool {
+					if r, ok := body[0].(*ast.ReturnStmt); ok && len(r.Results) == 1 {
+						if tv, ok := g.Info().Types[r.Results[0]]; ok && tv.Value != nil && tv.Value.String() == "false" {
+							return true
+						}
+					}
+				}
+			}
+		}
 		for _, call := range findAll[*ast.CallExpr](&ast.BlockStmt{List: body}) {
 			if len(call.Args) == 1 && IdentObj(g.Info(), call.Args[0]) == nonCanon {
 				return true
